@@ -1623,3 +1623,63 @@ def loop_carried_parameter_rule(ctx, rid, scope, min_instances=5):
                 r.fail(f.qualname, f"loop-carried-parameter:{nm}", f.file, first, f"{(f.cls.name + '.') if f.cls else ''}{f.name}", f"the parameter `{nm}` is read at line {rd.lineno} of the loop over `{norm_text(n.iter)[:40]}` and rebound at line {first} of the same body: from the second element group on, the loop works with the value the previous group left in `{nm}`, not with the caller's argument")
             else:
                 r.ok()
+
+
+def dump_complete_rule(ctx, rid, scope, min_instances=2):
+    """A function that serialises an object (`pickle.dump(X, file)`) and stores to an attribute of X on a path AFTER the dump
+    writes a file that lacks that store: whoever loads the file gets the object as it was before.  For every dump of a
+    name X (usually `self`) in scope, the statements that can execute after it (later statements of the enclosing blocks,
+    innermost first; the other arm of an `if` the dump sits in is not 'after') are searched for stores `X.attr = ...`,
+    `X.attr[...] = ...`, `X.attr op= ...` and `del X.attr`."""
+    repo = ctx.repo
+    r = ctx.rule(rid, "a serialised object is complete: no store to an attribute of X can execute after pickle.dump(X, ...) in the same function", min_instances=min_instances)
+
+    def base_name(t):
+        while isinstance(t, (ast.Subscript, ast.Attribute)):
+            t = t.value
+        return t.id if isinstance(t, ast.Name) else None
+
+    def stores_to(st, name):
+        out = []
+        for n in ast.walk(st):
+            tg = []
+            if isinstance(n, ast.Assign):
+                tg = n.targets
+            elif isinstance(n, (ast.AugAssign, ast.AnnAssign)):
+                tg = [n.target]
+            elif isinstance(n, ast.Delete):
+                tg = n.targets
+            for t0 in tg:
+                for t in (t0.elts if isinstance(t0, (ast.Tuple, ast.List)) else [t0]):
+                    if isinstance(t, (ast.Attribute, ast.Subscript)) and base_name(t) == name:
+                        out.append(n)
+        return out
+
+    def find(block, path):
+        """yield (dump call, name, [(block, index)...]) for every dump statement below `block`"""
+        for i, st in enumerate(block):
+            here = path + [(block, i)]
+            for n in ast.walk(st) if not isinstance(st, (ast.If, ast.For, ast.While, ast.With, ast.Try, ast.FunctionDef, ast.AsyncFunctionDef, ast.ClassDef)) else []:
+                if isinstance(n, ast.Call) and (dotted(n.func) or "").endswith("pickle.dump") and n.args and isinstance(n.args[0], ast.Name):
+                    yield n, n.args[0].id, here
+            for fld in ("body", "orelse", "finalbody"):
+                sub = getattr(st, fld, None)
+                if isinstance(sub, list) and sub and isinstance(sub[0], ast.stmt) and not isinstance(st, (ast.FunctionDef, ast.AsyncFunctionDef, ast.ClassDef)):
+                    yield from find(sub, here)
+            for h in getattr(st, "handlers", []) or []:
+                yield from find(h.body, here)
+
+    for f in sorted(repo.all_functions(), key=lambda f: f.qualname):
+        if not scope(f):
+            continue
+        for call, name, path in find(f.node.body, []):
+            r.instance(fn=f.qualname)
+            late = []
+            for block, idx in reversed(path):
+                for st in block[idx + 1:]:
+                    late.extend(stores_to(st, name))
+            if late:
+                n = late[0]
+                r.fail(f.qualname, f"store-after-dump:{norm_text(n)[:60]}", f.file, n.lineno, f.name, f"`{norm_text(n)[:80]}` (line {n.lineno}) executes after `{norm_text(call)[:60]}` (line {call.lineno}): the file holds `{name}` without it - the object loaded back is not the one that was saved")
+            else:
+                r.ok(f"{f.qualname}: nothing is stored on `{name}` after {norm_text(call)[:40]}")
